@@ -54,6 +54,15 @@ func (e *eng) Exec(op []string) string {
 		return fmt.Sprintf("%d %d %d", r, s, t)
 	case "setlimit":
 		return e.v.SetLimit(a(1) != 0) + " | " + e.v.Layer()
+	case "racestress":
+		v := rtpconn.VerifNewDown("video/vp9", 16)
+		v.SetRate(100000)
+		return v.RaceStress(a(1), func(seq int, key bool, sid int) []byte {
+			d := common.VP9Desc{I: true, P: !key, L: true, F: false, B: true, E: true, M: true, PictureID: seq & 0x7FFF,
+				TID: 0, SID: sid, D: sid > 0, TL0: seq & 0xFF, Keyframe: key && sid == 0, PayloadLen: 5, Seed: seq}
+			h := common.RTPHdr{Version: 2, PT: 96, Seq: seq & 0xFFFF, TS: uint32(seq) * 3000, SSRC: 1, Marker: sid == 1}
+			return h.Build(d.Bytes())
+		})
 	case "reqlimit":
 		var req []string
 		if op[1] != "-" {
